@@ -100,8 +100,9 @@ class Steady(Scenario):
     modules = [*MODS, "mxlpy.scan"]
     float_shim = ["mxlpy.model", "mxlpy.simulator"]
     isinstance_shim = ["mxlpy.simulation"]
-    max_paths = 200
+    max_paths = 40  # the contraction scenarios need K+1 paths; more means a convergence test that forks on every iteration
     max_decisions = 5000
+    max_seconds = 240
     timeout_ms = 15000
 
     def __init__(self, dim, rel, user_y0, earlier, alias, K, e_conc=None, drift=False, via="simulator", zero_start=False, accelerating=False):
